@@ -208,6 +208,62 @@ theorem C18_temporary_gone_after_next_call (ops1 ops2 : List Op) (subs : List (N
   rw [Spec.run_fst] at this
   simpa only [specAfter, List.foldl_append, List.foldl_cons] using this
 
+/-! ### `Dispatcher.unsubscribe_all` -/
+
+theorem foldl_del_keys {β : Type} (ks : List Nat) (m : List (Nat × β)) (h : ∀ p ∈ m, p.1 ∈ ks) :
+    ks.foldl OD.del m = [] := by
+  induction ks generalizing m with
+  | nil =>
+    apply List.eq_nil_iff_forall_not_mem.2
+    intro p hp
+    exact absurd (h p hp) (by simp)
+  | cons k ks ih =>
+    rw [List.foldl_cons]
+    apply ih
+    intro p hp
+    unfold OD.del at hp
+    obtain ⟨hm, hne⟩ := List.mem_filter.1 hp
+    rcases List.mem_cons.1 (h p hm) with e | e
+    · rw [e] at hne; simp at hne
+    · exact e
+
+theorem run_unsubscribes (beh : Beh) (e : Engine) (log : Log) (ts : List Token) :
+    ((Engine.run beh e log (ts.map Op.unsubscribe)).1).disp.tokenMap = ts.foldl OD.del e.disp.tokenMap ∧
+    ((Engine.run beh e log (ts.map Op.unsubscribe)).1).disp.counter = e.disp.counter ∧
+    ((Engine.run beh e log (ts.map Op.unsubscribe)).1).temp = e.temp := by
+  induction ts generalizing e log with
+  | nil => exact ⟨rfl, rfl, rfl⟩
+  | cons t ts ih =>
+    simp only [List.map_cons, Engine.run, Engine.step, List.foldl_cons]
+    obtain ⟨h1, h2, h3⟩ := ih { e with disp := e.disp.unsubscribe t } log
+    exact ⟨h1, h2, h3⟩
+
+/-- **unsubscribe_all.**  From EVERY state (so after any history), `RE.dispatcher.unsubscribe_all()` -- by the GENERATED
+    fact the loop `for t in list(token_mapping.keys()): unsubscribe(t)` -- leaves no public token mapped, and it touches
+    neither the token counter (tokens are never reissued: the next `subscribe` returns a token that was never handed out)
+    nor `_temp_callback_ids`. -/
+theorem C18_unsubscribe_all (beh : Beh) (e : Engine) (log : Log) :
+    ((Engine.run beh e log (Engine.unsubscribeAllOps e)).1).disp.tokenMap = [] ∧
+    ((Engine.run beh e log (Engine.unsubscribeAllOps e)).1).disp.counter = e.disp.counter ∧
+    ((Engine.run beh e log (Engine.unsubscribeAllOps e)).1).temp = e.temp := by
+  have hops : Engine.unsubscribeAllOps e = (e.disp.tokenMap.map (·.1)).map Op.unsubscribe := by
+    simp only [Engine.unsubscribeAllOps, Generated.unsubAllIsLoop, if_true, List.map_map]
+    rfl
+  rw [hops]
+  obtain ⟨h1, h2, h3⟩ := run_unsubscribes beh e log (e.disp.tokenMap.map (·.1))
+  refine ⟨?_, h2, h3⟩
+  rw [h1]
+  exact foldl_del_keys _ _ (fun p hp => List.mem_map.2 ⟨p, hp, rfl⟩)
+
+/-- ... hence, after `unsubscribe_all`, no callable is walked for any kind that a history subscribed (consequence of
+    `C18_lifetime` applied to the history extended by those unsubscribes), and the token of the next subscription is the
+    counter, which `unsubscribe_all` did not move. -/
+theorem C18_subscribe_after_unsubscribe_all (beh : Beh) (e : Engine) (log : Log) (f : Callable) :
+    (((Engine.run beh e log (Engine.unsubscribeAllOps e)).1).disp.subscribe f .all).2 = some e.disp.counter := by
+  have h := (C18_unsubscribe_all beh e log).2.1
+  simp only [Dispatcher.subscribe]
+  rw [h]
+
 /-! Non-vacuity: the scenario of the repaired defect.  `f = 7` is subscribed permanently (token 0)
     and again for one call (token 1); when the next call starts the per-call token is dropped and the
     permanent subscription still receives the start document (kind 1). -/
@@ -217,5 +273,6 @@ example : implLog (fun _ _ _ _ => false) false
     [.subscribe 7 .all, .callStart [(.all, 7)], .emit 1 0, .callStart [], .emit 1 1] = [(7, 1, 0), (7, 1, 1)] := by decide +kernel
 example : ((specAfter [.subscribe 7 .all, .callStart [(.all, 7)], .emit 1 0, .callStart []]).live.map Sub.tok) = [0] := by decide
 example : (Name.one 3).valid = true := by decide
+example : (Engine.unsubscribeAllOps (implAfter (fun _ _ _ _ => false) false [.subscribe 7 .all, .subscribe 8 (.one 1)])).length = 2 := by decide +kernel
 
 end BlueskyVerif.C18
